@@ -246,7 +246,25 @@ pub fn tree_worker(prop: &str, tier: &str, k: usize, n: usize, ctx: &mut Ctx) {
       sc.level3 = false;
       sweep(ctx, &sc, k, n, &all, &mut |c, t| tc::c07_faults(c, t));
     }
-    "C11" => sweep(ctx, &general_scope(tier), k, n, &all, &mut |c, t| tc::c11(c, t)),
+    "C11" => {
+      sweep(ctx, &general_scope(tier), k, n, &all, &mut |c, t| tc::c11(c, t));
+      // SourceMapSource with inner map (the C09 family, incl. source names shared between the outer
+      // and the inner map), seen directly and below ReplaceSource / CachedSource
+      let mut st = Striper::new(k, n);
+      let mut cnt = 0u64;
+      crate::c09::for_each_combined_term("quick", &mut st, &mut |t| {
+        cnt += 1;
+        if tier != "thorough" && cnt % 4 != 0 {
+          return;
+        }
+        for w in [t.clone(), Term::replace(t.clone(), vec![crate::term::Repl::new(1, 2, "X")]), Term::cached(t.clone())] {
+          crate::set_current_case(&w);
+          ctx.states += 1;
+          tc::c11(ctx, &w);
+        }
+      });
+      crate::clear_current_case();
+    }
     _ => panic!("no tree worker for {prop}"),
   }
 }
